@@ -33,7 +33,7 @@ ORIGIN = Family(
 FASTA = Family(
     "fasta", "MC_TextIO", "Trace_TextIO", "textio", devs=False,
     rounds={"quick": [M("fasta", 300, 0, 75, 1, mc=False)],
-            "thorough": [M("fasta", 1200, 0, 100, 1, mc=False)]},
+            "thorough": [M("fasta", 4000, 0, 100, 1, mc=False)]},
     owns=lambda v: v["rule"].startswith("fasta") or v["rule"].startswith("gbfasta"),
     rule_text=("streams of 1..5 records with residue counts sweeping 0..MaxN (every remainder mod 70), six description "
                "classes, LF and CRLF input, written with NewWriter(FastaFile) and read back with NewAutoScanner; every "
